@@ -72,9 +72,11 @@ struct Harness
     static constexpr int NV = 4;
     static constexpr int NE = 4;
 
+    // The container objects live in two mmap'ed pages owned by the run: page 0 holds slots 0,1 (the ones C19 shares
+    // between reader tasks and write-protects), page 1 holds slots 2,3.
     struct VSlot
     {
-        alignas(64) unsigned char storage[sizeof(V)];
+        unsigned char* storage = nullptr;
         bool exists = false;
         MVec m;
         Snapshot snap;
@@ -82,7 +84,7 @@ struct Harness
     };
     struct ESlot
     {
-        alignas(64) unsigned char storage[sizeof(E)];
+        unsigned char* storage = nullptr;
         bool exists = false;
         MElem m;
         int alloc_id = 0;
@@ -96,7 +98,22 @@ struct Harness
     std::uint64_t payload_counter = 0;
     std::uint64_t new_in_lib = 0;
 
-    explicit Harness(RunCtx& r) : rc(r) {}
+    static constexpr std::size_t SLOT_V = (sizeof(V) + 63) / 64 * 64;
+    static constexpr std::size_t SLOT_E = (sizeof(E) + 63) / 64 * 64;
+    static_assert(2 * (SLOT_V + SLOT_E) <= PAGE, "container objects of two slots must fit into one page");
+    unsigned char* obj_pages = nullptr;
+    bool c19_shared[NV] = {};   // slot is shared between reader tasks: only const member functions may be called
+    bool c19_eshared[NE] = {};
+
+    explicit Harness(RunCtx& r) : rc(r)
+    {
+        obj_pages = static_cast<unsigned char*>(
+            ::mmap(nullptr, 2 * PAGE, PROT_READ | PROT_WRITE, MAP_PRIVATE | MAP_ANONYMOUS, -1, 0));
+        g_obj_pages = obj_pages;
+        for (int s = 0; s < NV; ++s) vs[s].storage = obj_pages + (s / 2) * PAGE + (s % 2) * SLOT_V;
+        for (int s = 0; s < NE; ++s) es[s].storage = obj_pages + (s / 2) * PAGE + 2 * SLOT_V + (s % 2) * SLOT_E;
+    }
+    Harness(const Harness&) = delete;
 
     // -----------------------------------------------------------------------------------------
     // helpers
@@ -365,7 +382,11 @@ struct Harness
         for (std::size_t i = 0; i < n && !rc.stop; ++i)
         {
             std::vector<FieldSpan>& sp = snap.el[i];
-            const int path = all_paths ? -1 : static_cast<int>((i + static_cast<std::size_t>(path_salt)) % 6);
+            const bool co = c19_shared[s];  // shared between reader tasks: const member functions only
+            static constexpr int CONST_PATHS[3] = {1, 3, 4};
+            const int path = all_paths ? -1
+                                       : (co ? CONST_PATHS[(i + static_cast<std::size_t>(path_salt)) % 3]
+                                             : static_cast<int>((i + static_cast<std::size_t>(path_salt)) % 6));
             std::uintptr_t ref_b = 0, ref_e = 0;
             auto check = [&](auto&& ref, const char* pname)
             {
@@ -379,17 +400,18 @@ struct Harness
                            std::string(pname) + " elem" + (i == 0 ? "0" : (i + 1 == n ? "last" : "mid")) + "." + why);
                 }
             };
-            if (path == 0 || path < 0) check(v[i], "operator[]");
+            if (!co && (path == 0 || path < 0)) check(v[i], "operator[]");
             if (path == 1 || path < 0) check(cv[i], "const operator[]");
-            if (path == 2 || path < 0) check(*(v.begin() + static_cast<std::ptrdiff_t>(i)), "*iterator");
+            if (!co && (path == 2 || path < 0)) check(*(v.begin() + static_cast<std::ptrdiff_t>(i)), "*iterator");
             if (path == 3 || path < 0) check(cv.begin()[static_cast<std::ptrdiff_t>(i)], "const_iterator[]");
             if (path == 4 || path < 0)
             {
-                if (i == 0) check(v.front(), "front()");
+                if (i == 0 && co) check(cv.front(), "const front()");
+                else if (i == 0) check(v.front(), "front()");
                 else if (i + 1 == n) check(cv.back(), "const back()");
                 else check(*(cv.end() - static_cast<std::ptrdiff_t>(n - i)), "*(cend-k)");
             }
-            if (path == 5 || path < 0)
+            if (!co && (path == 5 || path < 0))
             {
                 auto it = v.begin();
                 it += static_cast<std::ptrdiff_t>(i);
@@ -491,7 +513,8 @@ struct Harness
         V& v = sl.v();
         const V& cv = v;
         const PropMask dom = pm(C18);
-        if (!(v.begin() == v.end()) || !(cv.begin() == cv.end()) || v.begin() != v.end())
+        if (c19_shared[s] ? !(cv.begin() == cv.end())
+                          : (!(v.begin() == v.end()) || !(cv.begin() == cv.end()) || v.begin() != v.end()))
         {
             report(dom, "empty-observers", "begin() != end()");
         }
@@ -528,12 +551,19 @@ struct Harness
         E& e = sl.e();
         MElem got;
         std::vector<FieldSpan> sp;
-        read_elem(e, got, sp, Seq{});
         std::string why;
-        if (!elem_matches(got, sl.m, why))
+        if (c19_eshared[s])
         {
-            report(rc.op_domain | pm(C12), "value-mismatch", "element" + std::string(".") + why);
-            return;
+            read_elem(std::as_const(e), got, sp, Seq{});
+        }
+        else
+        {
+            read_elem(e, got, sp, Seq{});
+            if (!elem_matches(got, sl.m, why))
+            {
+                report(rc.op_domain | pm(C12), "value-mismatch", "element" + std::string(".") + why);
+                return;
+            }
         }
         MElem got2;
         std::vector<FieldSpan> sp2;
@@ -626,7 +656,8 @@ struct Harness
             {
                 if (!es[s].exists || es[s].moved_from) continue;
                 std::vector<FieldSpan> sp;
-                span_elem(es[s].e(), sp, Seq{});
+                if (c19_eshared[s]) span_elem(std::as_const(es[s].e()), sp, Seq{});
+                else span_elem(es[s].e(), sp, Seq{});
                 for (std::size_t k = 0; k < N; ++k)
                     if (F_TRACKED[k])
                         for (auto a = sp[k].b; a < sp[k].e; a += VSIZE[k]) held.push_back(a);
@@ -712,5 +743,6 @@ struct Harness
 #include "ops4.inc"
 #include "ops5.inc"
 #include "ops6.inc"
+#include "ops7.inc"
 };
 }  // namespace sim
